@@ -2344,12 +2344,13 @@ func (self *ReplicationManager) SwitchToFollower(address string) error {
 
 	self.slock.logger.Infof("Replication start change to follower, leader %s", address)
 	self.leaderAddress = address
+	// updateState waits in WaitServerSynced (which takes self.glock) when the node quits the leader role
+	self.glock.Unlock()
 	if address == "" {
 		self.slock.updateState(STATE_FOLLOWER)
 	} else {
 		self.slock.updateState(STATE_SYNC)
 	}
-	self.glock.Unlock()
 
 	for _, db := range self.slock.dbs {
 		if db != nil {
